@@ -560,6 +560,9 @@ mod lits {
     #[ts(tag = "t", content = "c")]
     pub enum L2 { A { x: i32 }, B(i32), C }
     #[derive(TS)]
+    #[ts(tag = "ta\"g", content = "c\\x")]
+    pub enum L2e { #[ts(rename = "va\"r")] A { x: i32 }, B(i32) }
+    #[derive(TS)]
     #[ts(tag = "kind")]
     pub enum L3 { A { x: i32 }, C }
     #[derive(TS)]
@@ -596,6 +599,7 @@ fn variant_literals() -> Value {
     let cases: Vec<(&str, String, String)> = vec![
         ("plain variant names", lits::L1::inline(), format!("{} | {} | {}", q("plain"), q("two words"), q(""))),
         ("variant names that need escaping", lits::L1e::inline(), format!("{} | {} | {}", q("va\"r"), q("li\nne"), q("back\\slash"))),
+        ("tag and content strings that need escaping", lits::L2e::inline(), format!("{{ {}: {}, {}: {{ x: number, }} }} | {{ {}: {}, {}: number }}", q("ta\"g"), q("va\"r"), q("c\\x"), q("ta\"g"), q("B"), q("c\\x"))),
         ("adjacently tagged", lits::L2::inline(), "{ \"t\": \"A\", \"c\": { x: number, } } | { \"t\": \"B\", \"c\": number } | { \"t\": \"C\" }".to_string()),
         ("internally tagged", lits::L3::inline(), "{ \"kind\": \"A\", x: number, } | { \"kind\": \"C\" }".to_string()),
         ("tagged struct", lits::L4::inline(), "{ \"kind\": \"L4\", x: number, }".to_string()),
@@ -607,9 +611,8 @@ fn variant_literals() -> Value {
     let mut agree = true;
     for (what, got, want) in cases {
         let ok = got == want;
-        // the escaping case is known finding D12: it does not count against `agree`
-        if !ok && what != "variant names that need escaping" { agree = false; }
-        out.push(json!({"case": what, "binding": got, "expected": want, "agree": ok || what == "variant names that need escaping", "matches": ok}));
+        if !ok { agree = false; }
+        out.push(json!({"case": what, "binding": got, "expected": want, "agree": ok, "matches": ok}));
     }
     json!({"cases": out, "agree": agree})
 }
